@@ -1098,7 +1098,11 @@ func checkPathRequiredLast(c *Ctx, rule string, pk *packages.Package) {
 // field that the builder's methods read and never assign must be set by every literal that
 // constructs it (its zero value silently disables what the field feeds).
 func checkBuilderFields(c *Ctx, rule string, pk *packages.Package) {
-	c.Rule(rule, "every keyed composite literal of a scanner builder struct sets the fields its methods read but never assign", 9)
+	checkStructLiterals(c, rule, pk, "codescan", []string{"Builder"}, builderFieldsNeverSet, 9)
+}
+
+func checkStructLiterals(c *Ctx, rule string, pk *packages.Package, label string, suffixes []string, neverSet map[string]string, floor int) {
+	c.Rule(rule, "every keyed composite literal of a builder struct sets the fields its methods read but never assign", floor)
 	info := pk.TypesInfo
 	// fields read / assigned through a receiver, per struct type
 	reads := map[*types.Named]map[string]bool{}
@@ -1116,7 +1120,16 @@ func checkBuilderFields(c *Ctx, rule string, pk *packages.Package) {
 			rt = p.Elem()
 		}
 		named, ok := rt.(*types.Named)
-		if !ok || !strings.HasSuffix(named.Obj().Name(), "Builder") {
+		if !ok {
+			continue
+		}
+		match := false
+		for _, sx := range suffixes {
+			if strings.HasSuffix(named.Obj().Name(), sx) {
+				match = true
+			}
+		}
+		if !match {
 			continue
 		}
 		if reads[named] == nil {
@@ -1138,6 +1151,40 @@ func checkBuilderFields(c *Ctx, rule string, pk *packages.Package) {
 			if se, ok := n.(*ast.SelectorExpr); ok && identIs(info, se.X, recv) && !assigned[se] {
 				if sel := info.Selections[se]; sel != nil && sel.Kind() == types.FieldVal {
 					reads[named][se.Sel.Name] = true
+				}
+			}
+			return true
+		})
+	}
+	// assignments through any expression of the struct type, anywhere in the package, and fields set by some literal
+	setSomewhere := map[*types.Named]map[string]bool{}
+	for _, fd := range load.AllFuncs(pk) {
+		ast.Inspect(fd.Body, func(nd ast.Node) bool {
+			switch x := nd.(type) {
+			case *ast.AssignStmt:
+				for _, l := range x.Lhs {
+					if se, ok := l.(*ast.SelectorExpr); ok {
+						t := info.TypeOf(se.X)
+						if p, ok := t.(*types.Pointer); ok {
+							t = p.Elem()
+						}
+						if named, ok := t.(*types.Named); ok && reads[named] != nil {
+							writes[named][se.Sel.Name] = true
+						}
+					}
+				}
+			case *ast.CompositeLit:
+				if named, ok := info.TypeOf(x).(*types.Named); ok && reads[named] != nil {
+					if setSomewhere[named] == nil {
+						setSomewhere[named] = map[string]bool{}
+					}
+					for _, e := range x.Elts {
+						if kv, ok := e.(*ast.KeyValueExpr); ok {
+							if id, ok := kv.Key.(*ast.Ident); ok {
+								setSomewhere[named][id.Name] = true
+							}
+						}
+					}
 				}
 			}
 			return true
@@ -1171,20 +1218,22 @@ func checkBuilderFields(c *Ctx, rule string, pk *packages.Package) {
 			}
 			var missing []string
 			for f := range reads[named] {
-				if !writes[named][f] && !set[f] && builderFieldsNeverSet[named.Obj().Name()+"."+f] == "" {
+				// a field no literal ever sets and nothing assigns is reviewed once, in neverSet; a field that some other
+				// literal sets, nothing assigns, and this literal leaves out is the deviant case
+				if !writes[named][f] && !set[f] && neverSet[named.Obj().Name()+"."+f] == "" && neverSet[load.FuncName(fd)+" › "+named.Obj().Name()+"."+f] == "" {
 					missing = append(missing, f)
 				}
 			}
 			sort.Strings(missing)
 			// fields assigned right after construction through the variable (b.x = …) count as set
 			n++
-			c.Check(len(missing) == 0, rule, fmt.Sprintf("codescan.%s › %s{…}", load.FuncName(fd), named.Obj().Name()), c.posOf(pk, cl.Pos()), "sets every field its methods rely on",
+			c.Check(len(missing) == 0, rule, fmt.Sprintf("%s.%s › %s{…}", label, load.FuncName(fd), named.Obj().Name()), c.posOf(pk, cl.Pos()), "sets every field its methods rely on",
 				fmt.Sprintf("the literal leaves %v unset, which the methods of %s read and never assign: the builder silently works without that input (e.g. the index of swagger:parameters structs — the operation then loses its parameters)", missing, named.Obj().Name()))
 			return true
 		})
 	}
 	if n == 0 {
-		c.Unk(rule, "codescan › builder literals", "", "no keyed composite literal of a *Builder struct found")
+		c.Unk(rule, label+" › builder literals", "", "no keyed composite literal of a builder struct found")
 	}
 }
 
